@@ -27,6 +27,7 @@ CONSTANTS MsgT,       \* descriptor of the message type
           ChunkMax,   \* largest number of bytes a single read delivers
           FaultMax,   \* how many read errors the environment may inject
           Policy,
+          RetainMax,  \* how many guards the user may retain() (forget without consuming the message)
           ErrKinds,   \* io::ErrorKind names the injected read errors are drawn from (the algorithm may not distinguish them)
           Record      \* keep the history variable (FALSE for liveness checking: the state space stays finite and small)
 
@@ -41,9 +42,10 @@ VARIABLES si,         \* index of the stream being received
           consumed,   \* bytes consumed by dropped guards
           calls,      \* pipe calls in the current recv
           faults,     \* injected read errors so far
+          retained,   \* guards retained so far
           path        \* history: the environment script and the returns (hidden from the state by VIEW)
-vars == <<si, rd, buf, ws, we, rpc, cur, nret, consumed, calls, faults, path>>
-View == <<si, rd, buf, ws, we, rpc, cur, nret, consumed, calls, faults>>
+vars == <<si, rd, buf, ws, we, rpc, cur, nret, consumed, calls, faults, retained, path>>
+View == <<si, rd, buf, ws, we, rpc, cur, nret, consumed, calls, faults, retained>>
 
 Stream == Streams[si].bytes
 Occupied == SubSeq(buf, ws + 1, we)
@@ -54,13 +56,13 @@ Log(ev) == path' = IF Record THEN Append(path, ev) ELSE path
 Init ==
   /\ si \in DOMAIN Streams
   /\ rd = 0 /\ buf = Rep(Cap, 0) /\ ws = 0 /\ we = 0
-  /\ rpc = "idle" /\ cur = 0 /\ nret = 0 /\ consumed = 0 /\ calls = 0 /\ faults = 0
+  /\ rpc = "idle" /\ cur = 0 /\ nret = 0 /\ consumed = 0 /\ calls = 0 /\ faults = 0 /\ retained = 0
   /\ path = <<>>
 
 RecvBegin ==
   /\ rpc = "idle"
   /\ rpc' = "validate" /\ calls' = 0
-  /\ UNCHANGED <<si, rd, buf, ws, we, cur, nret, consumed, faults, path>>
+  /\ UNCHANGED <<si, rd, buf, ws, we, cur, nret, consumed, faults, path, retained>>
 
 DoValidate ==
   /\ rpc = "validate"
@@ -69,7 +71,7 @@ DoValidate ==
                                 /\ Log(Ev("msg", cur', rd))
          [] r.cls = "size"   -> rpc' = "read" /\ UNCHANGED <<cur, nret, path>>
          [] OTHER            -> rpc' = "parse" /\ Log(Ev("parse", 0, rd)) /\ UNCHANGED <<cur, nret>>
-  /\ UNCHANGED <<si, rd, buf, ws, we, consumed, calls, faults>>
+  /\ UNCHANGED <<si, rd, buf, ws, we, consumed, calls, faults, retained>>
 
 \* make_contiguous
 Compact ==
@@ -77,12 +79,12 @@ Compact ==
   /\ IF Policy = "code" THEN we = Cap ELSE TRUE
   /\ buf' = [i \in 1..Cap |-> IF i <= we - ws THEN buf[ws + i] ELSE buf[i]]
   /\ ws' = 0 /\ we' = we - ws
-  /\ UNCHANGED <<si, rd, rpc, cur, nret, consumed, calls, faults, path>>
+  /\ UNCHANGED <<si, rd, rpc, cur, nret, consumed, calls, faults, path, retained>>
 
 OutOfMemory ==
   /\ rpc = "read" /\ we = Cap /\ ws = 0
   /\ rpc' = "oom" /\ Log(Ev("oom", 0, rd))
-  /\ UNCHANGED <<si, rd, buf, ws, we, cur, nret, consumed, calls, faults>>
+  /\ UNCHANGED <<si, rd, buf, ws, we, cur, nret, consumed, calls, faults, retained>>
 
 ReadData ==
   /\ rpc = "read" /\ we < Cap /\ rd < Len(Stream)
@@ -92,25 +94,25 @@ ReadData ==
        /\ we' = we + n /\ rd' = rd + n
        /\ Log(Ev("read", n, rd))
   /\ rpc' = "validate" /\ calls' = calls + 1
-  /\ UNCHANGED <<si, ws, cur, nret, consumed, faults>>
+  /\ UNCHANGED <<si, ws, cur, nret, consumed, faults, retained>>
 
 ReadEof ==         \* the pipe reports end of stream: read() = 0 => Closed
   /\ rpc = "read" /\ we < Cap /\ rd = Len(Stream)
   /\ rpc' = "closed" /\ calls' = calls + 1
   /\ Log(Ev("closed", 0, rd))
-  /\ UNCHANGED <<si, rd, buf, ws, we, cur, nret, consumed, faults>>
+  /\ UNCHANGED <<si, rd, buf, ws, we, cur, nret, consumed, faults, retained>>
 
 ReadEarlyEof ==    \* the pipe reports end of stream although the sender has not sent everything (a fault): Closed
   /\ rpc = "read" /\ we < Cap /\ rd < Len(Stream) /\ faults < FaultMax
   /\ rpc' = "closed" /\ faults' = faults + 1 /\ calls' = calls + 1
   /\ Log(Ev("eof", 0, rd))
-  /\ UNCHANGED <<si, rd, buf, ws, we, cur, nret, consumed>>
+  /\ UNCHANGED <<si, rd, buf, ws, we, cur, nret, consumed, retained>>
 
 ReadErr ==         \* a transient read error: recv returns Err(Read(e)); the receiver may be used again
   /\ rpc = "read" /\ we < Cap /\ faults < FaultMax
   /\ rpc' = "idle" /\ faults' = faults + 1 /\ calls' = calls + 1
   /\ \E ek \in ErrKinds : Log(EvK("rerr", 0, rd, ek))
-  /\ UNCHANGED <<si, rd, buf, ws, we, cur, nret, consumed>>
+  /\ UNCHANGED <<si, rd, buf, ws, we, cur, nret, consumed, retained>>
 
 GuardDrop ==       \* RecvGuard::drop: skip(size())
   /\ rpc = "guard"
@@ -122,9 +124,15 @@ GuardDrop ==       \* RecvGuard::drop: skip(size())
                                 \/ ws' = ws + cur /\ we' = we
      ELSE ws' = ws + cur /\ we' = we
   /\ rpc' = "idle"
-  /\ UNCHANGED <<si, rd, buf, cur, nret, calls, faults, path>>
+  /\ UNCHANGED <<si, rd, buf, cur, nret, calls, faults, path, retained>>
 
-Next == RecvBegin \/ DoValidate \/ Compact \/ OutOfMemory \/ ReadData \/ ReadEof \/ ReadEarlyEof \/ ReadErr \/ GuardDrop
+GuardRetain ==     \* RecvGuard::retain (or a leaked guard): nothing is skipped, the next recv hands out the same message again
+  /\ rpc = "guard" /\ retained < RetainMax
+  /\ retained' = retained + 1 /\ nret' = nret - 1
+  /\ rpc' = "idle" /\ Log(Ev("retain", cur, rd))
+  /\ UNCHANGED <<si, rd, buf, ws, we, cur, consumed, calls, faults>>
+
+Next == RecvBegin \/ DoValidate \/ Compact \/ OutOfMemory \/ ReadData \/ ReadEof \/ ReadEarlyEof \/ ReadErr \/ GuardDrop \/ GuardRetain
 Spec == Init /\ [][Next]_vars /\ WF_vars(Next)
 
 \* the same, printing the path of every generated transition (the script + returns that lead to it)
